@@ -64,6 +64,9 @@ class ForcePlatformData(Sized, BuildWriteable):
         i32.skip(stream)  # padding
         segment_data = SegmentData.bread(stream, n_segments)
         data = np.empty(n_frames, dtype=PlatDataType.btype)
+        # frames outside the segments are missing data
+        for field in data.dtype.names:
+            data[field] = np.nan
         for start_frame, n_frames in segment_data:
             dat = PlatDataType.bread(stream, n_frames)
             data[start_frame : start_frame + n_frames] = dat
